@@ -187,6 +187,13 @@ func c19Prepare(c *fw.Ctx, sc c19Scenario, dir string) error {
 			return err
 		}
 	}
+	if name, ok := strings.CutPrefix(sc.Prep, "plainfile:"); ok {
+		// an entity file under the plain name of the entity (put there by another tool, an earlier layout, a restore)
+		b, _ := json.Marshal(db.NewEntity(name, []byte("PUBLIC-KEY-UNDER-THE-PLAIN-NAME!"), nil))
+		if err := os.WriteFile(filepath.Join(dir, name+".entity"), b, 0644); err != nil {
+			return err
+		}
+	}
 	if key, ok := strings.CutPrefix(sc.Prep, "symlink:"); ok {
 		// the file of this key lives in another directory; the storage directory holds a symbolic link to it
 		other := dir + ".linked"
@@ -495,6 +502,12 @@ func c19Scenarios(thorough bool) []c19Scenario {
 	// the key's file is a symbolic link to a file in another directory (a key pair kept on another volume)
 	out = append(out, c19Scenario{Name: "set/symlinked-len10->len3", Prep: "symlink:k1", Pre: append(append([]c19KV{}, others...), c19KV{"k1", "0123456789"}), Args: []string{"set", "k1", "@abc"}})
 	out = append(out, c19Scenario{Name: "set/symlinked-len3->len300", Prep: "symlink:k1", Pre: append(append([]c19KV{}, others...), c19KV{"k1", "abc"}), Args: []string{"set", "k1", "@" + strings.Repeat("n", 300)}})
+	// look-ups: they write nothing today; whatever a look-up does on the way is subject to the same rule
+	withPeer := append(append([]c19KV{}, others...), c19KV{"entity:peer", strings.Repeat("K", 32)})
+	out = append(out, c19Scenario{Name: "get-entity/stored", Pre: withPeer, Args: []string{"get-entity", "peer"}})
+	out = append(out, c19Scenario{Name: "get-entity/unknown", Pre: others, Args: []string{"get-entity", "peer"}})
+	out = append(out, c19Scenario{Name: "get-entity/file-under-plain-name", Prep: "plainfile:peer", Pre: others, Args: []string{"get-entity", "peer"}})
+	out = append(out, c19Scenario{Name: "list-entities/file-under-plain-name", Prep: "plainfile:peer", Pre: withPeer, Args: []string{"list-entities"}})
 	out = append(out, c19Scenario{Name: "transport/restart-same", Prep: "transport", Pre: []c19KV{{"entity:ctl", "PUBLIC-KEY-OF-CONTROLLER-32-BYTES"}}, Args: []string{"transport"}})
 	out = append(out, c19Scenario{Name: "transport/restart-changed", Prep: "transport", Pre: []c19KV{{"entity:ctl", "PUBLIC-KEY-OF-CONTROLLER-32-BYTES"}}, Args: []string{"transport", "changed"}})
 	out = append(out, c19Scenario{Name: "transport/first-start", Pre: nil, Args: []string{"transport"}})
@@ -537,7 +550,7 @@ func init() {
 	fw.Register(&fw.Check{
 		ID:    "C19",
 		Level: "fault_enumeration",
-		Rule:  "for each scenario (Set for every (old,new) ∈ {absent,3,10,5000 bytes} × {3,10,5000 bytes,empty}; Delete; SaveEntity over a longer / shorter / no entity; a whole hc.NewIPTransport start on a fresh, a paired-unchanged and a paired-structurally-changed store) every file-system syscall the operation issues (listed by a reference strace run) is a kill point: the real child process is SIGKILLed at the entry of exactly that call, the directory is re-opened and every key is read through hc's API: each must equal its previous or its new value in full and Entities() must succeed and list the previous or the new set; then every key is written again with a shorter value and read back (nothing a killed write left behind may leak into later writes). distinct_nontrivial = distinct (scenario, kill point) pairs reached and verified to follow the reference trace Writes cut short by the operating system without a kill (RLIMIT_FSIZE: 0, 1, 9, 4096, 65536 bytes; Set and SaveEntity over absent / short / long values): success only with the complete value, failure leaves the previous one. After every kill point the operation is also REPEATED by a restarted process and must complete and leave the new state; where PID namespaces are available (unshare -p) killed and restarted process have the same process id, as a container's pid 1 has; the child's TMPDIR is on another file system than the store when /dev/shm is one. Added: an administrator's add-pairing for an existing controller with another (equal-length, shorter) key and for a new one, through the pairing controller; Set on a key whose file is a symbolic link to another directory.",
+		Rule:  "for each scenario (Set for every (old,new) ∈ {absent,3,10,5000 bytes} × {3,10,5000 bytes,empty}; Delete; SaveEntity over a longer / shorter / no entity; a whole hc.NewIPTransport start on a fresh, a paired-unchanged and a paired-structurally-changed store) every file-system syscall the operation issues (listed by a reference strace run) is a kill point: the real child process is SIGKILLed at the entry of exactly that call, the directory is re-opened and every key is read through hc's API: each must equal its previous or its new value in full and Entities() must succeed and list the previous or the new set; then every key is written again with a shorter value and read back (nothing a killed write left behind may leak into later writes). distinct_nontrivial = distinct (scenario, kill point) pairs reached and verified to follow the reference trace Writes cut short by the operating system without a kill (RLIMIT_FSIZE: 0, 1, 9, 4096, 65536 bytes; Set and SaveEntity over absent / short / long values): success only with the complete value, failure leaves the previous one. After every kill point the operation is also REPEATED by a restarted process and must complete and leave the new state; where PID namespaces are available (unshare -p) killed and restarted process have the same process id, as a container's pid 1 has; the child's TMPDIR is on another file system than the store when /dev/shm is one. Added: an administrator's add-pairing for an existing controller with another (equal-length, shorter) key and for a new one, through the pairing controller; Set on a key whose file is a symbolic link to another directory. Look-ups (EntityWithName of a stored / an unknown name, Entities) as operations, also on a directory that holds an entity file under the entity's plain name: a kill inside a look-up loses nothing either.",
 		Run:   c19Run,
 		Replay: func(c *fw.Ctx, raw json.RawMessage) {
 			var fc c18Case
